@@ -117,10 +117,7 @@ func fitGuards(fn *ssa.Function, rows map[ssa.Value]bool, columns, pk *types.Var
 // return. Returns the loop header.
 func guardCoversAll(fn *ssa.Function, g fitGuard) (*ssa.BasicBlock, string) {
 	gb := g.ifi.Block()
-	h := loopHeaderOf(gb)
-	for h != nil && !loopBody(h)[gb] {
-		h = nil
-	}
+	h := enclosingLoop(gb)
 	if h == nil {
 		return nil, "the test is not inside a loop over the elements"
 	}
